@@ -46,6 +46,8 @@ def leaf_script(kind, i, key_x):
         return b'\x93' + P(R.num_enc(300 + i)) + b'\x88\x75\x51'    # a b ADD <300+i> EQUALVERIFY DROP 1
     if kind == 'checksig':
         return P(key_x) + b'\xac'
+    if kind == 'codesep':
+        return b'\xab' + P(key_x) + b'\xac'                        # OP_CODESEPARATOR <key> OP_CHECKSIG: the digest commits to the separator's position (0)
     if kind == 'big':
         return b'\x75' + P(bytes([i % 256]) * 300) + b'\x75\x51'
     if kind in ('zero00', 'ffff'):
@@ -176,12 +178,16 @@ def check_case(c, ctx):
         ms = SIGH.search(err)
         if not ms:
             raise Violation(c, 'tap (on ptys) logged no sighash', observed=err[-300:])
-        want = T.sighash_taproot(rtx, 0, spent, 0, None, leaf, 0xffffffff)
+        want = T.sighash_taproot(rtx, 0, spent, 0, None, leaf, 0 if kind == 'codesep' else 0xffffffff)
+        if kind == 'codesep' and ms.group(1) != want.hex() and core.kf_active('C06-codesep-leaf'):
+            # known finding: tap fixes the code-separator position at "none"; excluded here, everything up to this point (address, control block) was checked
+            ctx.known_hit('C06-codesep-leaf', case_json(c))
+            return
         if ms.group(1) != want.hex():
             raise Violation(c, 'logged script-path sighash differs from the BIP342 digest of the transaction tap printed', observed=ms.group(1), expected=want.hex())
         # (4) btcdeb accepts the transaction (for signature-consuming leaves: after --sig with a reference signature)
         final_hex = m.group(1)
-        if kind == 'checksig':
+        if kind in ('checksig', 'codesep'):
             sig = secp.schnorr_sign(c['ld'], want)
             r2 = run_tap(base_args(c) + ['--sig=' + sig.hex(), '--tx=' + tx.ser().hex(), '--txin=' + fund.ser().hex()] + tap_positional(c) + [str(idx)] + args, tty=False)
             m2 = RTX.search(r2.out.decode(errors='replace'))
@@ -197,7 +203,7 @@ def check_case(c, ctx):
         if rb.timed_out:
             raise core.Inconclusive()
         last = rb.out.strip().splitlines()[-1:] if rb.out.strip() else []
-        want_top = [b'01'] if kind in ('checksig', 'same', 'args', 'big', 'zero00', 'ffff') else [b'%02x' % (1 + idx % 16)]
+        want_top = [b'01'] if kind in ('checksig', 'codesep', 'same', 'args', 'big', 'zero00', 'ffff') else [b'%02x' % (1 + idx % 16)]
         if rb.abnormal or rb.rc != 0 or len(rb.out.strip().splitlines()) != 1 or last != want_top:
             raise Violation(c, 'btcdeb does not accept the transaction tap produced for leaf #%d of %d (rc=%s, stack %r, err %r)' % (idx, n, rb.rc, rb.out[-80:], rb.err[-200:]), observed=[rb.rc, rb.out.decode(errors='replace')[-80:]])
     except core.Inconclusive:
@@ -259,7 +265,7 @@ def check_keypath(c, ctx):
         ctx.inconclusive += 1
 
 
-KIND_SETS = [['drop'], ['same'], ['drop', 'same', 'same'], ['checksig', 'drop'], ['args', 'drop'], ['checksig'], ['big', 'drop'], ['drop', 'checksig', 'args', 'same'], ['zero00'], ['zero00'], ['zero00', 'ffff'], ['ffff', 'drop']]
+KIND_SETS = [['drop'], ['same'], ['drop', 'same', 'same'], ['checksig', 'drop'], ['args', 'drop'], ['checksig'], ['big', 'drop'], ['drop', 'checksig', 'args', 'same'], ['zero00'], ['zero00'], ['zero00', 'ffff'], ['ffff', 'drop'], ['codesep'], ['codesep', 'drop']]
 PREFIXES = [None, None, 'bc', 'tb', 'bcrt', 'xyz', 'a']
 
 
@@ -280,7 +286,7 @@ def w_grid(ctx, wid, seed, pairs):
 def random_cases(draw):
     n = draw(st.one_of(st.integers(1, 20), st.integers(1, 200), st.sampled_from([1, 2, 3, 63, 64, 65, 127, 128, 129, 255, 256, 257, 1023, 1024])))
     idx = draw(st.integers(0, n - 1))
-    kinds = draw(st.lists(st.sampled_from(['drop', 'same', 'checksig', 'args', 'big', 'zero00', 'zero00', 'ffff']), min_size=1, max_size=5))
+    kinds = draw(st.lists(st.sampled_from(['drop', 'same', 'checksig', 'args', 'big', 'zero00', 'zero00', 'ffff', 'codesep']), min_size=1, max_size=5))
     if n > 100:
         kinds = [k for k in kinds if k != 'big'] or ['drop']
     prefix = draw(st.one_of(st.sampled_from(PREFIXES), st.text(alphabet='abcdefghijklmnopqrstuvwxyz', min_size=1, max_size=8)))
